@@ -139,17 +139,29 @@ class FutureResult(object):
         self._done_event = EventData()
         self.__callback = None
         self.__extra = None
+        self.__notified = False
+        self.__lock = threading.Lock()
 
     def __notify(self):
         """
         Notify the given callback about the result of the execution
         """
-        if self.__callback is not None:
+        with self.__lock:
+            if self.__callback is None or self.__notified:
+                # No callback, or already notified for this registration
+                return
+
+            # Each registration is notified once, even if set_callback()
+            # and execute() run at the same time
+            self.__notified = True
+            callback, extra = self.__callback, self.__extra
+
+        if callback is not None:
             try:
-                self.__callback(
+                callback(
                     self._done_event.data,
                     self._done_event.exception,
-                    self.__extra,
+                    extra,
                 )
             except Exception as ex:
                 self._logger.exception("Error calling back method: %s", ex)
@@ -165,8 +177,11 @@ class FutureResult(object):
         :param method: The method to call back in the end of the execution
         :param extra: Extra parameter to be given to the callback method
         """
-        self.__callback = method
-        self.__extra = extra
+        with self.__lock:
+            self.__callback = method
+            self.__extra = extra
+            self.__notified = False
+
         if self._done_event.is_set():
             # The execution has already finished
             self.__notify()
